@@ -54,6 +54,12 @@ def sources(tier, seed, ctx):
     for x in (40, 41, 42, 43, 44):
         leaves = [ck.acell(ck.rand_bits(rng, 400), []) for _ in range(4)]
         src.append(('payload_%d' % (214 + x), leaves + [ck.acell(ck.rand_bits(rng, 8 * x), [1, 2, 3, 4])]))
+    # chains at the depth limit (and just below the depth at which a per-level recursion exhausts a default interpreter stack)
+    for depth in ((1023, 990) if tier == 'quick' else (1023, 1022, 1000, 990, 960)):
+        chain = [ck.acell([1], [])]
+        for k in range(1, depth + 1):
+            chain.append(ck.acell(ck.rand_bits(rng, rng.choice([0, 3, 8])), [k] if k % 7 else [k, k]))
+        src.append(('chain_%d' % depth, chain))
     if tier == 'thorough':
         for n in (65535, 65536, 65537):
             src.append(('cells_%d' % n, bk.tree_heap(n)))
